@@ -179,7 +179,7 @@ class FileStore(BaseEngine):
     # ------------------------------------------------------------- generation
     def gen(self, prop, seed, idx, tier):
         rng = rng_for(prop, seed, idx, 'plan')
-        cfg = weighted(rng, (('roundtrip', 12), ('unstorable', 3), ('stored_faults', 1)))
+        cfg = weighted(rng, (('roundtrip', 12), ('unstorable', 3), ('stored_faults', 1), ('alt_image', 3)))
         small = cfg == 'stored_faults'
         ftype = pick(rng, (0, 1, 1, 2))
         ntracks = 1 if ftype == 0 else weighted(rng, ((0, 0.5), (1, 3), (2, 3), (3, 1), (4, 0.5)))
@@ -203,6 +203,9 @@ class FileStore(BaseEngine):
             tracks.append(tr)
         plan = {'prop': prop, 'cfg': cfg, 'type': ftype, 'tpb': pick(rng, (1, 96, 480, 960, 32767)),
                 'tracks': tracks, 'via': pick(rng, ('file', 'filename'))}
+        if cfg == 'alt_image':
+            plan['tracks'] = []
+            plan['alt'] = self._gen_alt(rng)
         if cfg == 'unstorable':
             kind = weighted(rng, (('rt', 4), ('negative', 2), ('float', 2), ('type0', 2), ('storable_common', 3)))
             plan['bad'] = kind
@@ -235,6 +238,51 @@ class FileStore(BaseEngine):
             plan['mut'] = None
         return plan
 
+    def _gen_alt(self, rng):
+        """Event lists for the independent SMF writer: legal encodings mido's own writer never produces
+        (running status, padded variable-length quantities, longer header chunk, F7 escape events, metas
+        with unusual payload lengths, unknown metas)."""
+        def delta():
+            return [pick(rng, VLQ_EDGES) if rng.random() < 0.3 else pick(rng, SMALL_DELTAS), pick(rng, (0, 0, 0, 1, 2))]
+        tracks = []
+        for _ in range(rng.randint(1, 3)):
+            tr = []
+            for _ in range(rng.randint(0, 10)):
+                r = rng.random()
+                if r < 0.5:
+                    st = pick(rng, (0x80, 0x90, 0x90, 0x91, 0xA0, 0xB0, 0xC0, 0xD0, 0xE0, 0xEF))
+                    n = 1 if (st & 0xF0) in (0xC0, 0xD0) else 2
+                    tr.append([delta(), 'midi', st, [_edge(rng, 0, 127) for _ in range(n)], rng.random() < 0.7])
+                elif r < 0.58:
+                    st = pick(rng, (0xF1, 0xF2, 0xF3, 0xF6))
+                    n = {0xF1: 1, 0xF2: 2, 0xF3: 1, 0xF6: 0}[st]
+                    tr.append([delta(), 'midi', st, [_edge(rng, 0, 127) for _ in range(n)], False])
+                elif r < 0.7:
+                    payload = [_edge(rng, 0, 127) for _ in range(pick(rng, (0, 1, 3, 127, 128)))]
+                    if rng.random() < 0.7:
+                        payload.append(0xF7)
+                    tr.append([delta(), 'sysex', pick(rng, (0xF0, 0xF0, 0xF7)), payload, pick(rng, (0, 0, 1))])
+                else:
+                    mt = pick(rng, (0x00, 0x01, 0x03, 0x20, 0x21, 0x2F, 0x51, 0x54, 0x58, 0x59, 0x7F, 0x0A, 0x60))
+                    ln = {0x00: pick(rng, (0, 2, 3)), 0x20: pick(rng, (1, 2)), 0x21: pick(rng, (0, 1, 2)),
+                          0x2F: pick(rng, (0, 0, 1)), 0x51: pick(rng, (3, 4)), 0x54: pick(rng, (5, 6)),
+                          0x58: pick(rng, (4, 5)), 0x59: pick(rng, (2, 3))}.get(mt, pick(rng, (0, 1, 4, 127, 128)))
+                    payload = [_edge(rng, 0, 255) for _ in range(ln)]
+                    if mt == 0x54 and payload:
+                        payload[0] = (pick(rng, (0, 1, 2, 3)) << 5) | rng.randrange(24)
+                    if mt == 0x59 and len(payload) >= 2:
+                        payload[0] = rng.randint(-7, 7) & 0xFF
+                        payload[1] = rng.randrange(2)
+                    if mt == 0x58 and len(payload) >= 2:
+                        payload[1] = pick(rng, (0, 1, 2, 3, 7, 8, 29, 31, 47, 63, 64, 127, 200, 255))
+                    tr.append([delta(), 'meta', mt, payload, pick(rng, (0, 0, 1))])
+            if rng.random() < 0.8:
+                tr.append([delta(), 'meta', 0x2F, [], 0])
+            tracks.append(tr)
+        return {'type': pick(rng, (0, 1, 1, 2)) if len(tracks) == 1 else pick(rng, (1, 1, 2)),
+                'division': pick(rng, (1, 96, 480, 32767, 0xE250)), 'tracks': tracks,
+                'header_extra': [0] * pick(rng, (0, 0, 2, 4)), 'declared_short': rng.random() < 0.1}
+
     # ------------------------------------------------------------- execution
     def abort_cleanup(self):
         mfmod.__dict__.pop('open', None)
@@ -254,6 +302,8 @@ class FileStore(BaseEngine):
                     self._roundtrip(plan, log, stats, cov)
                 elif cfg == 'unstorable':
                     self._unstorable(plan, log, stats, cov)
+                elif cfg == 'alt_image':
+                    self._alt_image(plan, log, stats, cov)
                 else:
                     self._stored_faults(plan, log, stats, cov)
             except Violation as v:
@@ -422,6 +472,28 @@ class FileStore(BaseEngine):
         cov.add(f'unstorable|{plan.get("bad")}')
         stats['_nontrivial'] += 1
 
+    def _alt_image(self, plan, log, stats, cov):
+        alt = plan['alt']
+        tracks = [[(tuple(e[0]),) + tuple(e[1:]) for e in tr] for tr in alt['tracks']]
+        image = simdisk.write_smf(alt['type'], alt['division'], tracks, bytes(alt['header_extra']),
+                                  declared_tracks=max(0, len(tracks) - 1) if alt['declared_short'] else None)
+        disk = simdisk.SimDisk()
+        stats['steps'] += 1
+        before = stats['probe:mutation_still_loads']
+        self._fixed_point(image, disk, stats)
+        loaded = stats['probe:mutation_still_loads'] > before
+        stats['probe:mutation_still_loads'] = before
+        stats['alt_image_loaded' if loaded else 'alt_image_load_raised'] += 1
+        if loaded:
+            stats['probe:alt_encoding_image_loaded'] += 1
+            if any(e[1] == 'midi' and e[4] for tr in alt['tracks'] for e in tr):
+                stats['probe:alt_running_status'] += 1
+            if any(e[0][1] for tr in alt['tracks'] for e in tr):
+                stats['probe:alt_padded_vlq'] += 1
+        log.ev('alt_image', len(image), loaded)
+        cov.add(f'alt_image|t{alt["type"]}|{"loaded" if loaded else "raised"}')
+        stats['_nontrivial'] += 1
+
     def _mutations(self, plan, image):
         n = len(image)
         if plan.get('mut') is not None:
@@ -522,6 +594,20 @@ class FileStore(BaseEngine):
 
     # ------------------------------------------------------------- shrinking
     def shrink(self, prop, plan):
+        if plan['cfg'] == 'alt_image':
+            if len(plan['alt']['tracks']) > 1:
+                yield from shrink_list_at(plan, ('alt', 'tracks'), min_len=1)
+            for i in range(len(plan['alt']['tracks'])):
+                yield from shrink_list_at(plan, ('alt', 'tracks', i))
+            if plan['alt']['header_extra']:
+                yield replace_at(plan, ('alt', 'header_extra'), [])
+            for i, tr in enumerate(plan['alt']['tracks']):
+                for j, e in enumerate(tr):
+                    if e[0] != [0, 0]:
+                        yield replace_at(plan, ('alt', 'tracks', i, j, 0), [0, 0])
+                    if e[1] == 'midi' and e[4]:
+                        yield replace_at(plan, ('alt', 'tracks', i, j, 4), False)
+            return
         if plan['cfg'] != 'unstorable' or plan.get('bad') != 'type0':
             if len(plan['tracks']) > 1 and plan['type'] != 0:
                 yield from shrink_list_at(plan, ('tracks',), min_len=1)
@@ -573,7 +659,8 @@ class FileStore(BaseEngine):
 
     def probe_names(self, prop):
         return ['running_status_emitted', 'running_status_broken_by_meta', 'vlq_3_bytes', 'vlq_4_bytes',
-                'payload_len_128', 'eot_folded_into_next', 'mutation_still_loads', 'mutation_changes_content']
+                'payload_len_128', 'eot_folded_into_next', 'mutation_still_loads', 'mutation_changes_content',
+                'alt_encoding_image_loaded', 'alt_running_status', 'alt_padded_vlq']
 
 
 ENGINE = FileStore()
